@@ -86,10 +86,25 @@ def validate_batch(scs, tag, invariants=INVARIANTS):
         sc = rest[k]
         inline = line - acc                     # 1-based line within the scenario
         ev = sc["lines"][inline - 1] if 0 < inline <= len(sc["lines"]) else {}
-        findings.append({"scenario": sc, "violated": r["violated"], "line": inline, "step": ev.get("e"),
+        findings.append({"scenario": sc, "violated": r["violated"], "line": inline + sc.get("offset", 0), "step": ev.get("e"),
                          "what": ev.get("what"), "diag": r["diag"], "pviol": r["pviol"], "trace_file": r["path"]})
         accepted += k
         rest = rest[k + 1:]
+        # the steps that follow the finding are still validated: the execution continues from the real state of the step
+        # (ghost contents and the "clean" flag are lost, the damage flag is set: only conformance, the frames and the
+        # state-independent predicates are evaluated on the continuation)
+        if 0 < inline < len(sc["lines"]) and not sc.get("no_continuation"):
+            cont = dict(sc)
+            tail = []
+            for ln in sc["lines"][inline:]:
+                if isinstance(ln.get("args"), dict) and any(k in ln["args"] for k in ("expect_c01", "goal", "expect_refused")):
+                    ln = dict(ln, args={k: x for k, x in ln["args"].items() if k not in ("expect_c01", "goal", "expect_refused")})
+                tail.append(ln)
+            cont["lines"] = [{"e": "Reset", "dmg": True, "state": sc["lines"][inline - 1]["state"]}] + tail
+            cont["steps"] = list(sc["steps"]) + ["(continuation after the finding at line %d)" % (inline + sc.get("offset", 0))]
+            cont["offset"] = sc.get("offset", 0) + inline - 1
+            cont["continued"] = True
+            rest = [cont] + rest
     return findings, accepted, states
 
 
@@ -114,32 +129,50 @@ def classify(f):
     return "C06", str(f["violated"]), f["diag"] or ""
 
 
+def classify_all(f):
+    """every (property id, signature, text) a finding stands for: one step can violate several predicates of the property
+    layer at once (e.g. a known finding and something else), each is reported on its own"""
+    if f["violated"] == "NoPropertyViolation" and f["pviol"]:
+        ms = re.findall(r'"(C\d\d)",\s*"([^"]+)"', f["pviol"])
+        if ms:
+            seen, out = set(), []
+            for pid, sig in ms:
+                if (pid, sig) not in seen:
+                    seen.add((pid, sig)); out.append((pid, sig, f["pviol"]))
+            return out
+    return [classify(f)]
+
+
 def report(v, f, rerun=True):
     """A violation is reported only if it repeats when the same history is re-recorded with fresh block
     contents (a collision of random data cannot repeat)."""
-    pid, sig, text = classify(f)
     sc = f["scenario"]
-    confirmed = True
-    if rerun:
-        again = _run_scenario((sc["seed"], sc["conf"], sc["profile"], sc["nsteps"], sc.get("script"), sc["seed"] + 1000003))
-        if again.get("err"):
-            raise vlib.ToolFailure("re-recording failed: " + again["err"])
-        f2, _, _ = validate_batch([again], "confirm-%s" % sc["seed"])
-        confirmed = any(classify(x)[:2] == (pid, sig) for x in f2)
-    if not confirmed:
-        print("note: %s %s at seed %s did not repeat with fresh data; not reported" % (pid, sig, sc["seed"]))
-        return False
-    replay = {"kind": "array-scenario", "seed": sc["seed"], "profile": sc["profile"], "conf": sc["conf"],
-              "steps": sc["steps"], "failing_line": f["line"], "failing_step": f["step"], "invariant": f["violated"],
-              "diag": f["diag"], "pviol": f["pviol"], "trace": sc["lines"][:f["line"]]}
-    v.violation("%s at step %s (%s) of scenario seed=%s profile=%s: %s" % (sig, f["line"], f["step"], sc["seed"],
-                                                                           sc["profile"], (text or "")[:600]),
-                replay_obj=replay, signature=sig,
-                # a step of the real code that the specification does not allow is reported under the property being checked
-                # (its verdict rests on the conformance of every step of its histories); violations found by the property
-                # layer keep the id of the property whose predicate failed
-                pid=(v.pid if f["violated"] == "Conforms" else pid))
-    return True
+    f2 = None
+    reported = False
+    for pid, sig, text in classify_all(f):
+        confirmed = True
+        if rerun:
+            if f2 is None:
+                again = _run_scenario((sc["seed"], sc["conf"], sc["profile"], sc["nsteps"], sc.get("script"), sc["seed"] + 1000003))
+                if again.get("err"):
+                    raise vlib.ToolFailure("re-recording failed: " + again["err"])
+                f2, _, _ = validate_batch([again], "confirm-%s" % sc["seed"])
+            confirmed = any((pid, sig) in [y[:2] for y in classify_all(x)] for x in f2)
+        if not confirmed:
+            print("note: %s %s at seed %s did not repeat with fresh data; not reported" % (pid, sig, sc["seed"]))
+            continue
+        replay = {"kind": "array-scenario", "seed": sc["seed"], "profile": sc["profile"], "conf": sc["conf"],
+                  "steps": sc["steps"], "failing_line": f["line"], "failing_step": f["step"], "invariant": f["violated"],
+                  "diag": f["diag"], "pviol": f["pviol"], "trace": sc["lines"][:f["line"]]}
+        r = v.violation("%s at step %s (%s) of scenario seed=%s profile=%s: %s" % (sig, f["line"], f["step"], sc["seed"],
+                                                                               sc["profile"], (text or "")[:600]),
+                        replay_obj=replay, signature=sig,
+                        # a step of the real code that the specification does not allow is reported under the property being checked
+                        # (its verdict rests on the conformance of every step of its histories); violations found by the property
+                        # layer keep the id of the property whose predicate failed
+                        pid=(v.pid if f["violated"] == "Conforms" else pid))
+        reported = reported or r
+    return reported
 
 
 # ---------------------------------------------------------------------------------------
